@@ -387,6 +387,17 @@ func ParseRealtime(content []byte, opts *ParseRealtimeOptions) (*Realtime, error
 		}
 		result.Vehicles = append(result.Vehicles, *vehicle)
 	}
+	// Map iteration order is random; sort so that the same feed always gives the same result.
+	sort.Slice(result.Vehicles, func(i, j int) bool {
+		a, b := result.Vehicles[i].GetID(), result.Vehicles[j].GetID()
+		if a.ID != b.ID {
+			return a.ID < b.ID
+		}
+		if a.Label != b.Label {
+			return a.Label < b.Label
+		}
+		return a.LicensePlate < b.LicensePlate
+	})
 	result.Vehicles = append(result.Vehicles, vehiclesWithNoID...)
 	return &result, nil
 }
